@@ -15,10 +15,10 @@ import (
 	"sync"
 
 	"github.com/goreleaser/nfpm/v2"
-	"github.com/goreleaser/nfpm/v2/deprecation"
 	_ "github.com/goreleaser/nfpm/v2/apk"
 	_ "github.com/goreleaser/nfpm/v2/arch"
 	_ "github.com/goreleaser/nfpm/v2/deb"
+	"github.com/goreleaser/nfpm/v2/deprecation"
 	_ "github.com/goreleaser/nfpm/v2/ipk"
 	_ "github.com/goreleaser/nfpm/v2/rpm"
 
